@@ -11,7 +11,7 @@ Driver for the MVCC store model (C07, C08).  Requests (one per line):
   ops := op(;op)*
   op  := cn:<label> | sp:<n>.<k>.<v> | rp:<n>.<k> | al:<n>.<l> | rl:<n>.<l> | dn:<n>
        | ce:<src>.<tgt>.<props> | se:<e>.<k>.<v> | de:<e>
-       | b:rc | b:si | c:<t> | a:<t> | u | g:auto | g:<w>
+       | b:rc | b:si | wn:<t>.<n> | we:<t>.<e> | c:<t> | a:<t> | u | g:auto | g:<w>
   props := - | <k>=<v>(+<k>=<v>)*
 
   obs := <out>|<cur>|<wm>|<count>|<all>|<nodeReads>|<edgeReads>|<ends>|<txnNode>|<txnEdge>|<active>
@@ -68,6 +68,12 @@ def parseOp? (s : String) : Option Op :=
   | ["b", "si"] => some (.txn (.begin .si))
   | ["c", t] => t.toNat?.map (fun t => .txn (.commit t))
   | ["a", t] => t.toNat?.map (fun t => .txn (.abort t))
+  | ["wn", r] => match r.splitOn "." with
+      | [t, n] => do pure (.txn (.writeNode (← t.toNat?) (← n.toNat?)))
+      | _ => none
+  | ["we", r] => match r.splitOn "." with
+      | [t, e] => do pure (.txn (.writeEdge (← t.toNat?) (← e.toNat?)))
+      | _ => none
   | ["u"] => some (.txn .bump)
   | ["g", "auto"] => some (.txn (.gc none))
   | ["g", w] => w.toNat?.map (fun w => .txn (.gc (some w)))
